@@ -46,18 +46,18 @@ CLAIMED = {
              note='Trusted: clang/opt 14, the obligation table (sa/checks/c10.py), debug-info variable names as site selectors. Host configuration only in quick tier.'),
 }
 ADDED = {
- 'C01': 'engine I/O transition table (progress, ready state), handshake-state reinitialisation on reset, ServerKeyExchange hash by version, key-export seed (RFC 5705), explicit nonce taken from the record, CBC padding length range, ECDH buffer sizes, transcript hash follows the wire bytes, max_frag_len / log_max_frag_len agreement, I/O wrapper acknowledges the transport count',
+ 'C01': 'engine I/O transition table (progress, ready state), handshake-state reinitialisation on reset, ServerKeyExchange hash by version, key-export seed (RFC 5705), explicit nonce taken from the record, CBC padding length range, ECDH buffer sizes, transcript hash follows the wire bytes, max_frag_len / log_max_frag_len agreement, I/O wrapper acknowledges the transport count, every mode admits a full 2^14-byte fragment and an empty record (accept side of the length gates)',
  'C02': 'engine rejection table, CBC block-multiple gates and padding range / length, Poly1305 block decoding (bit provenance), sequence-number encoding, GHASH tail, word layout maps (GHASH), CCM tag comparison shape, explicit nonce taken from the record',
- 'C03': 'key usage / key type per suite, resumption rules, session invalidation on failure, signature hash comparison shape, ECDSA verifier obligations, FALLBACK_SCSV grid, CertificateVerify hash range, server-name handling, mandatory-check reference of both handshake interpreters, transcript hash follows the wire bytes, exact EMSA-PKCS1-v1_5 template, server-chosen suite checked against the offered list',
+ 'C03': 'key usage / key type per suite, resumption rules, session invalidation on failure, signature hash comparison shape, ECDSA verifier obligations, FALLBACK_SCSV grid, CertificateVerify hash range, server-name handling, mandatory-check reference of both handshake interpreters, transcript hash follows the wire bytes, exact EMSA-PKCS1-v1_5 template, server-chosen suite checked against the offered list, start_chain receives the server name on every handshake incl. renegotiation (choice depends on the caller flag alone)',
  'C04': 'anchor comparison operands, key-usage masks, name comparison vectors, calendar table, OID table, ASN.1 signature length obligations, decode_mod source coverage, unavoidable CA test, mandatory-check reference, minimum RSA size threshold, RSA verifier wrapper obligations, UTF-8 decoder / encoder tables (RFC 3629), validity range over all 81 ordering cases, exact EMSA-PKCS1-v1_5 template, on-demand anchor lookup key',
- 'C05': 'whole-library bounded-copy rule (178 armed sites), engine buffer bounds and offered regions, no resume after failure, status accessors, curve-id range, self-indexed buffer wrap, modpow window room, mandatory-check reference of the key decoders, P-256 point length gate',
+ 'C05': 'whole-library bounded-copy rule (178 armed sites), engine buffer bounds and offered regions, no resume after failure, status accessors, curve-id range, self-indexed buffer wrap, modpow window room, mandatory-check reference of the key decoders, P-256 point length gate, PSS size guard compares the length value actually subtracted from',
  'C06': 'I/O buffers disjoint, close order, renegotiation declined, input-only mode is read-only, engine progress / ready / offered regions, state reinitialisation, close_notify flag kept, CBC split room, received-record dispatch table',
  'C08': 'engine re-runs instances until their own SSA values settle (loop-carried flows); 98 entries incl. ECDSA signers, hash functions on secret data, HMAC key setup; mark audit; bits2int order; intraprocedural OAEP unpadding rule; failed key exchange randomised',
  'C10': 'keygen forced bits, zero stripping direction, public-exponent gate, modpow temporaries, key-exchange padding coverage, muladd quotient mask, sibling call sequences (i15/i31/i32), decode_mod coverage, public exponent conversion in key generation, exact EMSA-PKCS1-v1_5 template, full-word carry chains (i32)',
- 'C11': 'muladd zero test, RFC 6979 inputs, P-256 decode conjuncts, ASN.1 length / sign rules, zero-hash verification, final-reduction selector, keygen candidate independence, formula tables, sibling call sequences (i15/i31, m15/m31, m62/m64), word layout maps, accumulator re-splits keep every bit, OR-scans cover their array',
+ 'C11': 'muladd zero test, RFC 6979 inputs, P-256 decode conjuncts, ASN.1 length / sign rules, zero-hash verification, final-reduction selector, keygen candidate independence, formula tables, sibling call sequences (i15/i31, m15/m31, m62/m64), word layout maps, accumulator re-splits keep every bit, OR-scans cover their array, X25519 scalar right-aligned in all six implementations',
  'C12': 'SSE2 / AES-NI lane counters, counter carry chains, CTR counter advance, Poly1305 wrap, block decoding and ctmulq carry ranges, DES EDE schedule, GHASH partial block, empty chunk identity, CBC-dec IV, tail-copy lint, sibling call sequences (aes_big/aes_small), AES key expansion rule (FIPS 197), word layout maps, accumulator re-splits, AES-NI round-key chains (57), bitsliced CTR lane counters',
- 'C13': 'TLS 1.0 PRF shape, HMAC constant-time window and key handling, MD padding and update chunking, DRBG state update / chunking / seed padding, SHAKE padding and round constants, HKDF blocks / positions / limit, hash state save and restore, SHAKE lane complement set, PRF output cleared before P_hash, HMAC_DRBG empty-seed test',
- 'C14': 'chunk completion, authenticated bytes, EAX MAC restart, counter carry chains, empty chunk identity, lane counters, GHASH tail, reset is history-free (sa/resetflow.py), word layout maps, AES-NI round-key chains, bitsliced CTR lane counters',
+ 'C13': 'TLS 1.0 PRF shape, HMAC constant-time window and key handling, MD padding and update chunking, DRBG state update / chunking / seed padding, SHAKE padding and round constants, HKDF blocks / positions / limit, hash state save and restore, SHAKE lane complement set, PRF output cleared before P_hash, HMAC_DRBG empty-seed test, 64-bit counters not rounded down with 32-bit masks (lint with controls)',
+ 'C14': 'chunk completion, authenticated bytes, EAX MAC restart, counter carry chains, empty chunk identity, lane counters, GHASH tail, reset is history-free (sa/resetflow.py), word layout maps, AES-NI round-key chains, bitsliced CTR lane counters, 64-bit counters not rounded down with 32-bit masks',
  'C19': 'close order, renegotiation declined / binding / extension required, alert levels and parser state, close_notify flag kept, record type restored before yield, no-renegotiation option, engine progress table, I/O wrapper closes the engine on a failed write, discard-input reachable from the closing sequence only, received-record dispatch table (18 cases), I/O wrapper acknowledges the transport count, SCSV refused on renegotiation',
  'C20': 'seed fully absorbed, sequence-number encoding, record IV writers, ephemeral key fully drawn, session ID freshness, hello randoms drawn and fresh per handshake, hardware seeders (ESP8266, Pico configurations) feed every byte drawn, seeder rules on three configurations',
 }
